@@ -9,6 +9,7 @@ import WD.Driver.Obs
 import WD.Driver.C08
 import WD.Driver.C12
 import WD.Driver.C18
+import WD.Driver.C20
 open WD.Driver WD.Proto
 
 def handle (line : String) : String :=
@@ -18,6 +19,8 @@ def handle (line : String) : String :=
   | "subcreated" :: ts => c14Line "subcreated" ts
   | "rekey" :: ts => c14Line "rekey" ts
   | "dq" :: ts => c17Line ts
+  | "inodec" :: ts => c20Line "inodec" ts
+  | "windec" :: ts => c20Line "windec" ts
   | "deb" :: ts => c18Line ts
   | "fd" :: ts => c12Line "fd" ts
   | "fdctor" :: ts => c12Line "fdctor" ts
